@@ -1421,7 +1421,6 @@ fn configs(quick: bool) -> Vec<Cfg> {
         v.push(c(true, Ver::V5, 4, 10));
         v.push(c(false, Ver::V5, 4, 10));
         v.push(c(true, Ver::V4, 4, 10));
-        v.push(c(false, Ver::Auto, 4, 10));
         v.push(c(false, Ver::V4, 0, 17));
         v.push(c(false, Ver::V5, 6, 6));
         v.push(c(true, Ver::V4, 0, 3));
